@@ -383,8 +383,10 @@ pub fn run_mappings(out: &mut Out, tier: &str, rng: &mut Rng) {
         json!({"Box<RawValue>": "string", "Arc<Session>": "number", "Rc<Node>": "string", "Cow<'static, str>": "string"}),
         // generic keys whose head merely *ends* in the name of a wrapper the tool unwraps
         json!({"QueryResult<Row>": "number", "MyOption<Row>": "string", "SmallVec<Row>": "string", "IndexMap<Row>": "string"}),
+        // generic keys with several arguments (a comma inside the mapped name)
+        json!({"Versioned<DocId, u32>": "string", "Either<Left, Right>": "number"}),
     ];
-    let mapped_names = ["PathBuf", "Uuid", "Timestamp", "DateTime<Utc>", "Flag", "User", "Box<RawValue>", "Arc<Session>", "Rc<Node>", "QueryResult<Row>", "MyOption<Row>", "SmallVec<Row>"];
+    let mapped_names = ["PathBuf", "Uuid", "Timestamp", "DateTime<Utc>", "Flag", "User", "Box<RawValue>", "Arc<Session>", "Rc<Node>", "QueryResult<Row>", "MyOption<Row>", "SmallVec<Row>", "Versioned<DocId, u32>", "Either<Left, Right>"];
     let mut kk = 0usize;
     for name in mapped_names {
         let n = RTy::Named(name.to_string());
